@@ -10,7 +10,7 @@ RULE = ('a hub daemon V with an honest bystander peer P1 and a second configured
         'two-field combinations) from the configured address and from an unconfigured one, protocol oddities (unknown exchange type, '
         'IKE_SA_INIT for an existing SPI, unsolicited responses, binary vendor IDs / identities, wrong-length IP identities), '
         'authentic-but-malformed protected messages built with the real keys of an established peer, kernel messages (truncated / '
-        'unknown / foreign ACQUIRE and EXPIRE), and sendto / netlink OSError injected at EVERY call index of base histories. Oracle per '
+        'unknown / foreign ACQUIRE and EXPIRE), and sendto / netlink OSError injected at EVERY call index of base histories; PERSISTENT kernel refusals (every DELSA or every NEWSA fails with EPERM / EINVAL / ENOBUFS / ESRCH / OSError for the whole history, the peer then closes its IKE_SA) after which the hub must still retransmit a lost request to its other peer and serve it. Oracle per '
         'step: the loop comes back to select (LoopExit), executed repository lines <= 4000 + 20*bytes + 40*S + 800*#IKE_SAs (S = SPI counts declared in DELETE headers), and '
         'afterwards the bystander still completes a handshake and a CHILD_SA rekey with mirror-image SADs. distinct = (phase, class, how the step ended).')
 ASSUMPTIONS = ['one event per loop iteration; the hostile party may spoof any source address; authentic-but-malformed messages come from a peer that holds the keys',
@@ -326,6 +326,78 @@ def run(ck):
                         any(x.state == State.ESTABLISHED and x.child_sas and str(x.peer_addr) == P2A for x in hub.ctl.ike_sas)
                     if not ok and not died:
                         ck.violation(f'bystander-not-served:after-injected-{kind}-failure', {'history': name, 'k': k}, sim.case)
+    # ---- PERSISTENT kernel refusals: from the start of a history every request of one type fails (a one-shot fault heals on the next iteration, this does not).
+    # Afterwards the hub must still give TIMER-driven service to its other peer: an unanswered request of its own is retransmitted, DPD probes start.
+    pers = [(typ, fl) for typ in ('DELSA', 'NEWSA') for fl in (('errno', -1), ('errno', -22), ('errno', -105), ('errno', -3), ('oserror', 105))]
+    for name in scripts:
+        for typ, fl in pers:
+            n += 1
+            if not ck.mine(n):
+                continue
+            sim, hub, (p1, p2) = S.make_star(base + 77, peers=2, dpd=30)
+            sim.case = {'persistent_kernel_refusal': typ, 'fault': fl, 'history': name}
+            hub.kernel.fault_types[typ] = fl
+            died = []
+            sim.monitors.append(lambda s_, ep, rec: died.append((ep.name, rec)) if (rec.died and ep is hub) else None)
+                    # same script as above, on this sim
+            for a in scripts[name]:
+                if a == 'acq1':
+                    sim.acquire(p1, 0, sport=6200)
+                elif a == 'acqhub':
+                    sim.acquire(hub, 0, dport=6300)
+                elif a == 'drain':
+                    sim.drain()
+                elif a in ('soft1', 'hard1'):
+                    sas = [x for x in p1.ctl.ike_sas if x.child_sas and x.state == State.ESTABLISHED]
+                    if sas:
+                        sim.expire(p1, bytes(sas[0].child_sas[0].inbound_spi), a == 'hard1', daddr=P1A)
+                elif a == 'softhub':
+                    sas = [x for x in hub.ctl.ike_sas if x.child_sas and x.state == State.ESTABLISHED]
+                    if sas:
+                        sim.expire(hub, bytes(sas[0].child_sas[0].inbound_spi), False, daddr=HUB)
+                elif a in ('ikerekey1', 'ikerekeyhub', 'dpdhub'):
+                    ep = p1 if a.endswith('1') else hub
+                    sas = [x for x in ep.ctl.ike_sas if x.state == State.ESTABLISHED]
+                    if sas:
+                        if a.startswith('dpd'):
+                            sas[0].start_dpd_at = sim.clock.t - 1
+                        else:
+                            sas[0].rekey_ike_sa_at = sim.clock.t - 1
+                        ep.step('tick')
+            # P1 closes its IKE_SA: the hub has to delete kernel SAs that the kernel refuses to delete
+            for x in [x for x in p1.ctl.ike_sas if x.state == State.ESTABLISHED]:
+                x.delete_ike_sa_at = sim.clock.t - 1
+                p1.step('tick')
+            sim.drain()
+            ck.count('persistent.runs')
+            ck.seen('persistent.kinds', (typ, fl))
+            ck.nontrivial(('persistent', name, typ, fl))
+            # timer-driven service for the OTHER peer: the hub's own IKE_SA_INIT request to P2 is lost and must be retransmitted
+            sim.net.clear()
+            sim.acquire(hub, 1, dport=6500)
+            first = [d.data for d in sim.net if d.dst == P2A]
+            sim.net.clear()
+            got = []
+            for _ in range(4):
+                sim.tick_all(1.1)
+                got += [d.data for d in sim.net if d.dst == P2A]
+                if got:
+                    break
+            if died:
+                rec = died[0][1]
+                ck.violation(f'loop-terminated:{type(rec.exc).__name__}:persistent-{typ}-refusal', {'exc': repr(rec.exc)}, sim.case)
+            elif not first:
+                ck.violation(f'no-ike-sa-init-request-for-the-other-peer:persistent-{typ}-refusal', {'hub': [(x.state.name, str(x.peer_addr)) for x in hub.ctl.ike_sas]}, sim.case)
+            elif not got or got[0] != first[0]:
+                ck.violation(f'timer-driven-service-dead:lost-request-to-the-other-peer-never-retransmitted:persistent-{typ}-refusal',
+                             {'hub': [(x.state.name, str(x.peer_addr)) for x in hub.ctl.ike_sas], 'errors': [e for e in S.W.internal_errors][-2:]}, sim.case)
+            else:
+                ck.count('persistent.timer_service_alive')
+                # and the handshake goes through once the network delivers (unless it is NEWSA itself that the kernel refuses)
+                sim.drain()
+                ok = any(x.state == State.ESTABLISHED and str(x.peer_addr) == P2A for x in hub.ctl.ike_sas)
+                if typ != 'NEWSA' and not ok:
+                    ck.violation(f'other-peer-not-served:persistent-{typ}-refusal', {'hub': [(x.state.name, str(x.peer_addr)) for x in hub.ctl.ike_sas]}, sim.case)
     mon.stop()
 
 
@@ -338,5 +410,6 @@ def verdict(ck):
     ck.floor('kernel oddities', sum(v for k, v in c.items() if k.startswith('hostile.kernel')), 100)
     ck.floor('sendto faults', c['faults.sendto'], 20)
     ck.floor('netlink faults', c['faults.netlink'], 10)
+    ck.floor('persistent kernel refusal runs with live timer service', c['persistent.timer_service_alive'], 20)
     ck.floor('phases', len(ck.sets['phases']), 5)
     return None
